@@ -18,6 +18,42 @@ SERIALIZE_ERROR = "s3s::ops::serialize_error"
 # R1 funnel
 # ------------------------------------------------------------------------------------------------
 
+def funnel_body_ok(db, body, depth=0, seen=None):
+    """every error this body can return was rendered: returns list of (body, bi, what) offending return writes"""
+    seen = seen if seen is not None else set()
+    if body.name in seen or depth > 3:
+        return []
+    seen.add(body.name)
+    bad = []
+    for w in flow.return_writes(body):
+        if w["kind"] == "Ok":
+            continue
+        if w["kind"] == "call" and callee_def(w["term"]) == SERIALIZE_ERROR:
+            continue
+        if w["kind"] in ("Err", "residual", "use", "call", "other"):
+            op = w["rv"]["ops"][0] if "rv" in w and w["rv"]["ops"] else (w["term"]["args"][0] if "term" in w and w["term"]["args"] else None)
+            if w["kind"] == "call":
+                # value produced by a call: a workspace helper is checked recursively
+                srcs = [(w["bi"], w["term"])]
+            else:
+                sl = flow.backward(body, op, at=w["bi"]) if op is not None else None
+                srcs = [(bi, t) for bi, t, _ in sl.calls if not flow.is_transparent(t)] if sl else []
+            if not srcs:
+                bad.append((body, w["bi"], "returns an error value that does not come from serialize_error (%s)" % w["kind"]))
+                continue
+            for bi, t in srcs:
+                d = callee_def(t)
+                if d == SERIALIZE_ERROR:
+                    continue
+                hb = db.body(d)
+                if hb is not None and d.startswith("s3s::ops::") and "Response" in hb.raw.get("ret", "") + " ".join(x.raw.get("ret", "") for x in db.nested(hb)):
+                    inner = max(db.nested(hb), key=lambda x: len(x.blocks))
+                    bad += funnel_body_ok(db, inner, depth + 1, seen)
+                    continue
+                bad.append((body, w["bi"], "`%s` lets the error of %s leave without passing serialize_error" % ("?" if w["kind"] == "residual" else w["kind"], short(d))))
+    return bad
+
+
 def rule_r1(chk, db):
     roles = Roles(db)
     # role: the body that calls both `prepare`-like fn and a virtual Operation::call
@@ -31,27 +67,10 @@ def rule_r1(chk, db):
         raise AnchorMissing("expected one body performing the virtual Operation::call, found %s" % [b.name for b in cands])
     body = cands[0]
     rw = flow.return_writes(body)
-    n = 0
-    for w in rw:
-        n += 1
-        key = "ops::call.ret@%s" % w["kind"]
-        if w["kind"] == "Ok":
-            chk.ok("R1", key + "#%d" % n, body.loc(w["bi"]), nontrivial=False)
-        elif w["kind"] == "call" and callee_def(w["term"]) == SERIALIZE_ERROR:
-            chk.ok("R1", key + "#%d" % n, body.loc(w["bi"]))
-        elif w["kind"] == "Err":
-            # an Err literal must carry the renderer's own failure only
-            sl = flow.backward(body, w["rv"]["ops"][0])
-            ok = any(callee_def(t) == SERIALIZE_ERROR for _, t, _ in sl.calls)
-            chk.verdict(ok, "R1", "ops::call.raw-err", body.loc(w["bi"]), "ops::call returns Err(e) for an error that did not go through serialize_error")
-        elif w["kind"] == "residual":
-            # `?` inside ops::call: the residual must come from serialize_error or route access (converted below)
-            sl = flow.backward(body, w["term"]["args"][0])
-            srcs = [callee_def(t) for _, t, _ in sl.calls if not flow.is_transparent(t)]
-            ok = bool(srcs) and all(s == SERIALIZE_ERROR for s in srcs)
-            chk.verdict(ok, "R1", "ops::call.question-mark", body.loc(w["bi"]), "`?` in ops::call lets an unrendered error escape (sources: %s)" % srcs[:3])
-        else:
-            chk.fail("R1", "ops::call.ret-other", body.loc(w["bi"]), "ops::call return value written by %s" % w["kind"])
+    bad = funnel_body_ok(db, body)
+    chk.verdict(not bad, "R1", "ops::call.returns", body.loc(bad[0][1]) if bad else body.loc(),
+                "; ".join("%s at %s" % (w, b.loc(bi)) for b, bi, w in bad[:3]), detail={"return_writes": len(rw)})
+    chk.floor("R1.returns", len(rw), 3, "return writes of ops::call")
     # every Err outcome of prepare / Operation::call / the custom-route future reaches serialize_error
     fallible = []
     for bi, t in body.calls():
@@ -64,7 +83,7 @@ def rule_r1(chk, db):
             ch = db.body(rv["def"])
             if ch is not None and any(x["callee"].get("trait") == roles.S3Route for _, x in ch.calls()):
                 fallible.append((bi, None, "custom-route-future"))
-    chk.floor("R1.sources", len(fallible), 3, "fallible sources in ops::call (prepare, Operation::call, custom route)")
+    chk.floor("R1.sources", len(fallible), 2, "fallible sources in ops::call (prepare, Operation::call[, custom route future])")
     for bi, t, nm in fallible:
         if t is not None:
             o = flow.outcomes_of_call(body, bi)
@@ -131,14 +150,28 @@ def rule_r2(chk, db):
     ok = "s3s::error::S3Error::status_code" in defs and any(d.endswith("Option::<T>::unwrap_or") for d in defs)
     dflt = [status_of_const(c) for c in sl.consts if c.get("c") == "item"]
     chk.verdict(ok and dflt == [500], "R2", "status", b.loc(ws[0][0]), "error status must be S3Error::status_code().unwrap_or(500); slice calls %s default %s" % (defs, dflt))
-    # headers <- take_headers
+    # headers <- take_headers: whole-map assignment, extend, or per-item append (insert would collapse multi-valued headers)
     hdr = False
+    lossy = None
     for bi, si, st in b.stmts():
         if flow.proj_names(flow.norm_proj(st["dst"]["proj"])) == ["headers"]:
-            s2 = flow.backward(b, st["rv"]["ops"][0])
+            s2 = flow.backward(b, st["rv"]["ops"][0], at=bi)
             if "s3s::error::S3Error::take_headers" in s2.call_defs():
                 hdr = True
-    chk.verdict(hdr, "R2", "headers", b.loc(), "the error's headers never reach the response (res.headers <- take_headers())")
+    for bi, t in b.calls():
+        d = callee_def(t)
+        if d.endswith("HeaderMap::<T>::extend") or d == "core::iter::traits::collect::Extend::extend" or d.endswith("HeaderMap::<T>::append") or d.endswith("HeaderMap::<T>::insert"):
+            recv = flow.resolve_chain(b, t["args"][0]) or []
+            if not any(flow.proj_names(pr)[:1] == ["headers"] for _, pr in recv):
+                continue
+            s2 = flow.backward(b, t["args"][-1], at=bi)
+            if "s3s::error::S3Error::take_headers" in s2.call_defs():
+                if d.endswith("::insert"):
+                    lossy = bi
+                else:
+                    hdr = True
+    chk.verdict(hdr and lossy is None, "R2", "headers", b.loc(lossy) if lossy is not None else b.loc(),
+                "the error's headers do not all reach the response" + (" (copied with HeaderMap::insert: multi-valued headers collapse to one value)" if lossy is not None else " (res.headers <- take_headers())"))
     # body <- set_xml_body(res, &e) / no_decl variant selected by the flag
     setters = {short(callee_def(t)): bi for bi, t in b.calls() if callee_def(t).startswith("s3s::http::ser::set_xml_body")}
     chk.verdict(set(setters) == {"set_xml_body", "set_xml_body_no_decl"}, "R2", "body", b.loc(), "serialize_error must render through set_xml_body / set_xml_body_no_decl (found %s)" % sorted(setters))
